@@ -418,8 +418,57 @@ func history(c *vk.C, rng *rand.Rand, k int) {
 		faulted int
 	)
 
+	// labelsFor finds labels under which selector sel does / does not select id (nil if the sample holds none)
+	labelsFor := func(sel selector, id string, want bool) map[string]string {
+		for try := 0; try < 30; try++ {
+			if l := genLabels(rng); sel.ref(id, l) == want {
+				return l
+			}
+		}
+
+		return nil
+	}
+
+	// a resource goes away and comes back on the other side of a selector, with updates of the same id right before and after and
+	// nothing else of that kind in between (whatever a filtered view remembers per id has to be forgotten with the resource)
+	recreateFlipped := func() {
+		id, sel := ids[rng.IntN(len(ids))], sels[rng.IntN(len(sels))]
+		before := rng.IntN(2) == 0
+		lb, la := labelsFor(sel, id, before), labelsFor(sel, id, !before)
+
+		if lb == nil || la == nil {
+			return
+		}
+
+		steps := []struct {
+			op     wl.OpKind
+			labels map[string]string
+		}{{wl.OpCreate, lb}, {wl.OpUpdate, lb}, {wl.OpDestroy, nil}, {wl.OpCreate, la}, {wl.OpUpdate, la}}
+
+		if rng.IntN(2) == 0 {
+			steps = append(steps, steps[4])
+			steps[5].labels = lb // ... and back across the selector by a plain update
+		}
+
+		for _, st := range steps {
+			if _, err := w.Write(ctx, st.op, id, st.labels); err != nil {
+				c.Violation("write-failed", err.Error())
+			}
+
+			trace = append(trace, fmt.Sprintf("op%d %s %v (re-create across selector)", st.op, id, st.labels))
+		}
+
+		c.Count("recreated_across_selector", 1)
+	}
+
 	write := func(n int) {
 		for i := 0; i < n; i++ {
+			if rng.IntN(9) == 0 {
+				recreateFlipped()
+
+				continue
+			}
+
 			id := ids[rng.IntN(len(ids))]
 			op := wl.OpUpdate
 
